@@ -1,6 +1,7 @@
 import Tcell.Lemmas.ChunkStable
 import Tcell.Lemmas.ChunkUtf8
 import Tcell.Props.C03
+import Tcell.Gen.ParserMode
 /-
 C02 — "Input decoding is independent of read chunking and consumes every byte".
 
@@ -22,9 +23,10 @@ repaired clipboard parser of fixes/C02-clipboard.patch wherever that parser is a
                               the buffer);  `collect_total` (what the Go panics would correspond to)
 * `not_order_dependent`       under `Stable` the result never depends on map iteration order
 * `decLaws_utf8`, `decLaws_table`   the decoder laws hold for UTF-8 and for every single-byte charset
-* `db_guard_partial`, `db_stable_partial`   `Stable` for the key table of every regenerated database entry that has no key
-                              extending a focus report (kernel evaluation); `rxvt_focus_clash`: the excepted entries of the
-                              pinned tree really are chunk dependent (finding; fixes/C02-rxvt-ctrl-arrows.patch)
+* `db_guard`, `db_stable`     `Stable` for the key table of EVERY regenerated database entry, no exception (kernel evaluation;
+                              full strength since /repo 7758baa and 6c7d26f), and the corollary the property wants:
+* `db_chunk_independent`      every partition into reads = one read, for the screen of every built-in entry (UTF-8)
+                              `rxvt_focus_clash`: why the rxvt entries had to be excepted before 7758baa
 * `pinned_clipboard_*`        the pinned `parseClipboard` violates the statement: concrete counterexamples (`decide`),
                               the same inputs are fixed cases of the `parsechunk` engine (classes `chunk-dependent`,
                               `swallow`)
@@ -372,34 +374,58 @@ theorem sgr_strict_esc_immediate : collect exStrict {} [27, 120] false = ⟨[.ke
 /-! ### database layer: `Stable` for every regenerated entry -/
 
 open Tcell.Props.C03 in
-/-- configuration of the screen built for a database entry (key table as extracted from the real constructor and proved
-equal to `buildKeys` by the exhaustive `keytable` correspondence), repaired clipboard parser -/
-def dbCfg (p : Terminfo × List Gen.KeyRow) : Cfg :=
-  { keys := toTable p.2, mouse := mouseActive p.1, clipboard := clipboardActive p.1, clipFixed := true,
-    dec := decUtf8, w := 80, h := 24 }
+/-- configuration of the screen built for a database entry: key table as extracted from the real constructor (and proved
+equal to `buildKeys` by the exhaustive `keytable` correspondence), the parsers `collectEventsFromInput` activates for it,
+and the clipboard / SGR-mouse parser variants of the tree under test (`Gen.clipFixed`, `Gen.sgrStrict`: the translator's
+behavioural probes, the same questions engine `parsechunk` asks to choose the model variant it is compared with) -/
+def dbCfgV (p : Terminfo × List Gen.KeyRow) (sgr : Bool) : Cfg :=
+  { keys := toTable p.2, mouse := mouseActive p.1, clipboard := clipboardActive p.1, clipFixed := Gen.clipFixed,
+    sgrStrict := sgr, dec := decUtf8, w := 80, h := 24 }
+
+open Tcell.Props.C03 in
+/-- … with the SGR parser variant of the tree under test -/
+def dbCfg (p : Terminfo × List Gen.KeyRow) : Cfg := dbCfgV p Gen.sgrStrict
+
+/-- the current tree has the clipboard parser of /repo 6c7d26f (cuts at the terminator it found, checks its prefix) -/
+theorem tree_clip_fixed : Gen.clipFixed = true := by decide
+
+/-- … and the strict SGR mouse parser of /repo 9fa9988 (`Stable` does not need this: both variants are prefix-monotone) -/
+theorem tree_sgr_strict : Gen.sgrStrict = true := by decide
 
 /-- some key sequence of the table properly extends a focus report `ESC [ I` / `ESC [ O` -/
 def focusClash (T : KeyTable) : Bool :=
   T.any fun e => (hasPrefix e.seq [27, 91, 73] || hasPrefix e.seq [27, 91, 79]) && decide (3 < e.seq.length)
 
 set_option maxRecDepth 1000000 in
-/-- **DB: table guard** — for every entry of the regenerated database whose key table has no sequence extending a focus
-report: every sequence is non-empty and 7-bit initial, and focus / X11 / SGR / clipboard parsers (those active for the
-entry) complete on no proper prefix of a key.  (On the pinned tree the rxvt family defines Ctrl-arrows as `ESC [ O a…d`,
-which extend the focus-out report `ESC [ O`: finding `chunk-dependent`, `rxvt_focus_clash` below; with
-fixes/C02-rxvt-ctrl-arrows.patch no entry is excepted.) -/
-theorem db_guard_partial : Gen.dbTables.all (fun p => focusClash (dbCfg p).keys || keyGuard (dbCfg p)) = true := by
-  decide +kernel
+/-- the kernel evaluation of `db_guard`, in two halves of the entry list (each well under a minute) -/
+theorem db_guard_lo : (Gen.dbTables.take 25).all (fun p => keyGuard (dbCfgV p false)) = true := by decide +kernel
+set_option maxRecDepth 1000000 in
+theorem db_guard_hi : (Gen.dbTables.drop 25).all (fun p => keyGuard (dbCfgV p false)) = true := by decide +kernel
 
-/-- **DB: `Stable`** for every database entry without such a clash, with the UTF-8 decoder (and, by `stable_of_dec` /
+/-- **DB: table guard** (full strength, current tree) — for EVERY entry of the regenerated database, no exception: every key
+sequence is non-empty and 7-bit initial, and focus / X11 / SGR / clipboard parsers (those active for the entry) complete on
+no proper prefix of a key — evaluated for the pinned (lenient) SGR parser, which completes on a superset of what the strict
+one completes on, so the guard transfers to the strict variant (`keyGuard_of_pinned`).  One linear pass per entry (`keyGuard` runs each active parser once on each key's longest proper
+prefix; no pair of keys is compared).  Holds since /repo 7758baa: before it the rxvt family defined Ctrl-arrows as
+`ESC [ O a…d`, which extend the focus-out report `ESC [ O` (`rxvt_focus_clash` below), and only the statement with
+focus-clashing tables excepted held. -/
+theorem db_guard : Gen.dbTables.all (fun p => keyGuard (dbCfgV p false)) = true := by
+  rw [← List.take_append_drop 25 Gen.dbTables, List.all_append, db_guard_lo, db_guard_hi]; rfl
+
+/-- no table of the current database has a key extending a focus report (the former exception is empty) -/
+theorem db_no_focus_clash : Gen.dbTables.all (fun p => !focusClash (dbCfg p).keys) = true := by decide +kernel
+
+/-- **DB: `Stable`** (full strength) for EVERY database entry, with the UTF-8 decoder (and, by `stable_of_dec` /
 `stable_congr`, any decoder satisfying `DecLaws`, any screen size, either X11 variant) -/
-theorem db_stable_partial : ∀ p ∈ Gen.dbTables, focusClash (dbCfg p).keys = false → Stable (dbCfg p) := fun p hp hno =>
-  { pf := Tcell.Props.C03.db_prefix_free p hp
-    guard := by
-      have := List.all_eq_true.mp db_guard_partial p hp
-      rw [hno] at this; simpa using this
-    dec := decLaws_utf8
-    clip := fun _ => rfl }
+theorem db_stable_sgr (sgr : Bool) : ∀ p ∈ Gen.dbTables, Stable (dbCfgV p sgr) := fun p hp =>
+  stable_sgr_variant (dbCfgV p false)
+    { pf := Tcell.Props.C03.db_prefix_free p hp
+      guard := List.all_eq_true.mp db_guard p hp
+      dec := decLaws_utf8
+      clip := fun _ => tree_clip_fixed } rfl sgr
+
+/-- **DB: `Stable`** for the parser variants of the tree under test -/
+theorem db_stable : ∀ p ∈ Gen.dbTables, Stable (dbCfg p) := fun p hp => db_stable_sgr Gen.sgrStrict p hp
 
 /-- the key `ESC [ O a` (rxvt Ctrl-Up in the pinned database) against the focus-out report `ESC [ O` -/
 def exRxvt : Cfg :=
@@ -425,18 +451,50 @@ theorem stable_congr (cfg cfg' : Cfg) (hs : Stable cfg) (hk : cfg'.keys = cfg.ke
   { pf := hk ▸ hs.pf, guard := by rw [keyGuard_congr cfg cfg' hk hm hc hf hst]; exact hs.guard, dec := hd ▸ hs.dec,
     clip := fun h => by rw [hf]; exact hs.clip (hc ▸ h) }
 
-/-- chunk independence for every database entry without a focus clash (UTF-8) -/
-theorem db_collect_append : ∀ p ∈ Gen.dbTables, focusClash (dbCfg p).keys = false → ∀ (st : PState) (a b : Bytes) (e : Bool),
+/-- the screen of a database entry at an arbitrary size and with either X11 mouse variant -/
+def dbCfgAt (p : Terminfo × List Gen.KeyRow) (w h : Int) (x11 : Bool) : Cfg := { dbCfg p with w := w, h := h, x11Fixed := x11 }
+
+/-- **db_chunk_independent** — the property for every built-in terminal.  For the screen of EVERY entry of the regenerated
+database (its real key table, its active parsers, the tree's clipboard parser, UTF-8 input), any screen size and either
+X11 variant: every partition of the input into reads – any number of chunks, any sizes incl. empty and single bytes, any
+bytes already buffered, any parser state, only the last read may carry the escape timeout – produces exactly the events,
+final state and leftover of ONE read of the concatenation. -/
+theorem db_chunk_independent : ∀ p ∈ Gen.dbTables, ∀ (w h : Int) (x11 : Bool) (cs : List Bytes) (last : Bytes) (e : Bool)
+    (st : PState) (buf : Bytes),
+    feeds (dbCfgAt p w h x11) st buf cs last e = feeds (dbCfgAt p w h x11) st buf [] (cs.flatten ++ last) e :=
+  fun p hp w h x11 cs last e st buf =>
+    feed_chunks_eq_feed_concat (dbCfgAt p w h x11)
+      (stable_congr (dbCfg p) (dbCfgAt p w h x11) (db_stable p hp) rfl rfl rfl rfl rfl rfl) last e cs st buf
+
+/-- … and after the escape timeout nothing stays buffered, for every built-in entry -/
+theorem db_expire_drains : ∀ p ∈ Gen.dbTables, ∀ (st : PState) (b : Bytes), (collect (dbCfg p) st b true).rest = [] :=
+  fun p hp st b => expire_drains' (dbCfg p) (db_stable p hp) st b
+
+/-- non-vacuity: the database is non-empty, contains the rxvt family that used to be excepted (now with `ESC O a`), and on
+the regenerated rxvt table the formerly clashing stream decodes the same in one read and split after `ESC [ O` -/
+example : 40 ≤ Gen.dbTables.length ∧
+    (∃ p ∈ Gen.dbTables, p.1.name = "rxvt" ∧ mouseActive p.1 = true ∧
+      (dbCfg p).keys.any (fun e => bytesEq e.seq [27, 79, 97]) = true ∧
+      feeds (dbCfg p) {} [] [[27, 91, 79]] [97] false = feeds (dbCfg p) {} [] [] [27, 91, 79, 97] false ∧
+      (feeds (dbCfg p) {} [] [] [27, 91, 79, 97] false).1 = [.focus false, .key 256 97 0]) := by
+  decide +kernel
+
+/-- `collect_append` for every database entry (UTF-8) -/
+theorem db_collect_append : ∀ p ∈ Gen.dbTables, ∀ (st : PState) (a b : Bytes) (e : Bool),
     collect (dbCfg p) st (a ++ b) e = feed2 (dbCfg p) st a b e :=
-  fun p hp hno st a b e => collect_append_stable (dbCfg p) (db_stable_partial p hp hno) st a b e
+  fun p hp st a b e => collect_append_stable (dbCfg p) (db_stable p hp) st a b e
 
-/-- the same for the repaired SGR parser (fixes/C02-sgr-strict.patch): `Stable` and chunk independence for every database
-entry without a focus clash -/
-theorem db_stable_strict : ∀ p ∈ Gen.dbTables, focusClash (dbCfg p).keys = false → Stable { dbCfg p with sgrStrict := true } :=
-  fun p hp hno => stable_sgr_variant (dbCfg p) (db_stable_partial p hp hno) rfl true
+/-- explicitly for the strict SGR parser (/repo 9fa9988) and for the lenient one, whatever the tree implements: `Stable` and
+chunk independence for EVERY database entry -/
+theorem db_stable_strict : ∀ p ∈ Gen.dbTables, Stable { dbCfg p with sgrStrict := true } :=
+  fun p hp => db_stable_sgr true p hp
 
-theorem db_collect_append_strict : ∀ p ∈ Gen.dbTables, focusClash (dbCfg p).keys = false → ∀ (st : PState) (a b : Bytes) (e : Bool),
+theorem db_collect_append_strict : ∀ p ∈ Gen.dbTables, ∀ (st : PState) (a b : Bytes) (e : Bool),
     collect { dbCfg p with sgrStrict := true } st (a ++ b) e = feed2 { dbCfg p with sgrStrict := true } st a b e :=
-  fun p hp hno st a b e => collect_append_stable _ (db_stable_strict p hp hno) st a b e
+  fun p hp st a b e => collect_append_stable _ (db_stable_strict p hp) st a b e
+
+theorem db_collect_append_lenient : ∀ p ∈ Gen.dbTables, ∀ (st : PState) (a b : Bytes) (e : Bool),
+    collect { dbCfg p with sgrStrict := false } st (a ++ b) e = feed2 { dbCfg p with sgrStrict := false } st a b e :=
+  fun p hp st a b e => collect_append_stable _ (db_stable_sgr false p hp) st a b e
 
 end Tcell.Props.C02
